@@ -864,6 +864,7 @@ class SqwEngine(Engine):
             sink_m = seams.SimBytesIO(ctx=ctx)
             pre = seams.Preemptor(prefixes, {at: cb} if where == "line" else {},
                                   site_points={at: cb} if where == "site" else None)
+            pre.once = True
             exc = pre.run(lambda: self._create(mem, ctx, sink_m, label="create_preempted"))
         if not state.get("ran"):
             ctx.probe("preemption_point_not_reached")
